@@ -4,8 +4,8 @@
    Initial states are seeds (family, row count, slice); their successors are the
    cases with what module Shuffle demands of the result:
 
-   shuffle   rows x on in {k, (k,k2), index} x npartitions_out 1..MaxOut x
-             ignore_index: the key classes that have to stay together
+   shuffle   rows x on in {k, (k,k2), index}: the key classes that have to stay
+             together (npartitions_out and ignore_index are configurations)
    sort      rows x by in {k, (k,k2)} x ascending (per column) x na_position:
              the key sequence of the sorted result
    setindex  rows x drop x (npartitions | user divisions | sorted=True):
@@ -21,7 +21,7 @@
    the cases with them.                                                       *)
 EXTENDS Shuffle, Json
 
-CONSTANTS Fams, Keys, MaxN, Full, Mod, Salt, MaxOut, MaxParts, MaxBranchIn
+CONSTANTS Fams, Keys, MaxN, Full, Mod, Salt, MaxParts, MaxBranchIn
 
 VARIABLES sc, sd, se, sout
 svars == <<sc, sd, se, sout>>
@@ -62,10 +62,8 @@ Next ==
   /\ sd' = TRUE
   /\ CASE sc.fam = "layouts" -> Emit(sc, SetToSeq(Layouts(sc.n, MaxParts)))
        [] sc.fam = "shuffle" ->
-            \E rows \in RowSets(sc.n, sc.sl), on \in {"k", "kk", "idx"}, nout \in 1..MaxOut, ign \in BOOLEAN :
-               /\ (sc.n <= Full) \/ ((HashSeq(Idxs(rows)) + nout + (IF ign THEN 1 ELSE 0)) % 2 = 0)
-               /\ LET c == [fam |-> "shuffle", rows |-> rows, on |-> on, nout |-> nout, ign |-> ign]
-                  IN Emit(c, [classes |-> KeyClasses(rows, on)])
+            \E rows \in RowSets(sc.n, sc.sl), on \in {"k", "kk", "idx"} :
+               LET c == [fam |-> "shuffle", rows |-> rows, on |-> on] IN Emit(c, [classes |-> KeyClasses(rows, on)])
        [] sc.fam = "sort" ->
             \E rows \in RowSets(sc.n, sc.sl), by \in {"k", "kk"}, naf \in BOOLEAN :
                \E asc \in AscSets(by) :
@@ -74,13 +72,12 @@ Next ==
        [] sc.fam = "setindex" ->
             \E rows \in RowSets(sc.n, sc.sl), drop \in BOOLEAN :
                \/ LET c == [fam |-> "setindex", rows |-> rows, drop |-> drop, how |-> "auto", udivs |-> <<>>]
-                  IN Emit(c, [idxs |-> Idxs(DropDuplicates(Reindexed(rows, drop), "all", "first")), parts |-> <<>>])
+                  IN Emit(c, [idxs |-> [p \in DOMAIN rows |-> SortedKeySeq(rows, "k", <<TRUE>>, FALSE)[p][1]], parts |-> <<>>])
                \/ /\ SortedK(rows) /\ rows # <<>>
                   /\ LET c == [fam |-> "setindex", rows |-> rows, drop |-> drop, how |-> "sorted", udivs |-> <<>>]
                      IN Emit(c, [idxs |-> [i \in DOMAIN rows |-> rows[i].k], parts |-> <<>>])
                \/ \E d \in UserDivs :
-                     /\ NoNA(rows) /\ rows # <<>>
-                     /\ (HashSeq(d) + HashSeq(Idxs(rows)) + sc.n) % 3 = 0
+                     /\ NoNA(rows) /\ rows # <<>> /\ CoversLabels(d, rows)
                      /\ LET c == [fam |-> "setindex", rows |-> rows, drop |-> drop, how |-> "user", udivs |-> d]
                         IN Emit(c, [idxs |-> <<>>,
                                     parts |-> [p \in 1..(Len(d) - 1) |-> { rows[i].rid : i \in { i \in DOMAIN rows : PartOfLabel(d, rows[i].k) = p } }]])
@@ -103,12 +100,13 @@ IsCase(fam) == sd /\ sc.fam = fam
 ShuffleContractOK ==
   (IsCase("shuffle") /\ Len(sc.rows) <= 3) =>
     LET keys == { ShuffleKey(sc.rows[i], sc.on) : i \in DOMAIN sc.rows } IN
-    \A hf \in [keys -> 1..sc.nout] :
-       LET parts == HashShuffle(sc.rows, sc.on, sc.nout, hf)
-           obs == [raised |-> "", parts |-> parts, nparts |-> sc.nout, ndivs |-> sc.nout + 1, wholeok |-> TRUE]
-       IN /\ ShuffleBad(sc.rows, sc.on, sc.nout, sc.ign, obs) = {}
+    \A nout \in 1..3, ign \in BOOLEAN : \A hf \in [keys -> 1..nout] :
+       LET parts == HashShuffle(sc.rows, sc.on, nout, hf)
+           obs == [raised |-> "", parts |-> parts, nparts |-> nout, ndivs |-> nout + 1, wholeok |-> TRUE]
+           bad(o) == ShuffleBad(sc.rows, sc.on, nout, ign, o)
+       IN /\ bad(obs) = {}
           /\ \A cl \in se.classes : \E p \in DOMAIN parts : cl \subseteq { parts[p][i].rid : i \in DOMAIN parts[p] }
-          /\ (sc.nout > 1 /\ \E cl \in se.classes : Cardinality(cl) > 1) =>
+          /\ (nout > 1 /\ \E cl \in se.classes : Cardinality(cl) > 1) =>
                 LET cl == CHOOSE x \in se.classes : Cardinality(x) > 1
                     mv == CHOOSE x \in cl : TRUE
                     src == CHOOSE p \in DOMAIN parts : mv \in { parts[p][i].rid : i \in DOMAIN parts[p] }
@@ -116,9 +114,8 @@ ShuffleContractOK ==
                     moved == [p \in DOMAIN parts |->
                                 IF p = src THEN SelectSeq(parts[p], LAMBDA r : r.rid # mv)
                                 ELSE IF p = dst THEN parts[p] \o SelectSeq(parts[src], LAMBDA r : r.rid = mv) ELSE parts[p]]
-                IN "CoLocated" \in ShuffleBad(sc.rows, sc.on, sc.nout, sc.ign, [obs EXCEPT !.parts = moved])
-          /\ sc.rows # <<>> => "Rows" \in ShuffleBad(sc.rows, sc.on, sc.nout, sc.ign,
-                                                     [obs EXCEPT !.parts = [p \in DOMAIN parts |-> IF parts[p] # <<>> /\ \A b \in 1..(p - 1) : parts[b] = <<>> THEN Tail(parts[p]) ELSE parts[p]]])
+                IN "CoLocated" \in bad([obs EXCEPT !.parts = moved])
+          /\ sc.rows # <<>> => "Rows" \in bad([obs EXCEPT !.parts = [p \in DOMAIN parts |-> IF parts[p] # <<>> /\ \A b \in 1..(p - 1) : parts[b] = <<>> THEN Tail(parts[p]) ELSE parts[p]]])
 
 ClassesPartition ==
   IsCase("shuffle") => /\ UNION se.classes = { sc.rows[i].rid : i \in DOMAIN sc.rows }
@@ -137,9 +134,8 @@ SetIndexSane ==
     /\ sc.how \in {"auto", "sorted"} => (SameBag(se.idxs, [i \in DOMAIN sc.rows |-> sc.rows[i].k]) /\ NonDecreasing(se.idxs))
     /\ sc.how = "user" =>
          /\ UNION { se.parts[p] : p \in DOMAIN se.parts } = { sc.rows[i].rid : i \in DOMAIN sc.rows }
-         \* rows inside the range of the divisions sit where the divisions contract wants them
-         /\ \A i \in DOMAIN sc.rows : (sc.udivs[1] <= sc.rows[i].k /\ sc.rows[i].k <= sc.udivs[Len(sc.udivs)])
-                                        => InDivision(sc.udivs, PartOfLabel(sc.udivs, sc.rows[i].k), sc.rows[i].k)
+         \* every row sits where the divisions contract wants it
+         /\ \A i \in DOMAIN sc.rows : InDivision(sc.udivs, PartOfLabel(sc.udivs, sc.rows[i].k), sc.rows[i].k)
 
 DedupSane ==
   (IsCase("dedup") /\ sc.op = "drop_duplicates") =>
